@@ -324,9 +324,100 @@ class SList(list):
         return list.__contains__(self, x)
 
 
+    def pop(self, *a):
+        self._yield("pop")
+        return list.pop(self, *a)
+
+    def extend(self, x):
+        self._yield("extend")
+        return list.extend(self, x)
+
+    def insert(self, i, x):
+        self._yield("insert")
+        return list.insert(self, i, x)
+
+    def __delitem__(self, i):
+        self._yield("delitem")
+        return list.__delitem__(self, i)
+
+    def __len__(self):
+        self._yield("len")
+        return list.__len__(self)
+
+
+class SDict(dict):
+    """Stand-in for multiprocessing.Manager().dict(): every operation is a scheduling point."""
+
+    def _yield(self, what):
+        s = cur()
+        if s is not None and s.me() is not None:
+            s.yield_point(("mpdict." + what, id(self)))
+
+    def __setitem__(self, k, v):
+        self._yield("setitem")
+        return dict.__setitem__(self, k, v)
+
+    def __delitem__(self, k):
+        self._yield("delitem")
+        return dict.__delitem__(self, k)
+
+    def __contains__(self, k):
+        self._yield("contains")
+        return dict.__contains__(self, k)
+
+    def __getitem__(self, k):
+        self._yield("getitem")
+        return dict.__getitem__(self, k)
+
+    def get(self, k, d=None):
+        self._yield("get")
+        return dict.get(self, k, d)
+
+    def pop(self, *a):
+        self._yield("pop")
+        return dict.pop(self, *a)
+
+    def setdefault(self, k, d=None):
+        self._yield("setdefault")
+        return dict.setdefault(self, k, d)
+
+    def update(self, *a, **k):
+        self._yield("update")
+        return dict.update(self, *a, **k)
+
+    def __len__(self):
+        self._yield("len")
+        return dict.__len__(self)
+
+
 class _SManager:
     def list(self, *a):
         return SList(*a)
+
+    def dict(self, *a, **k):
+        return SDict(*a, **k)
+
+    def Lock(self):
+        return SLock()
+
+    def RLock(self):
+        return SRLock()
+
+    def Condition(self, lock=None):
+        return SCondition(lock)
+
+    def Namespace(self):
+        import types
+        return types.SimpleNamespace()
+
+    def start(self, *a, **k):
+        pass
+
+    def __enter__(self):
+        return self
+
+    def __exit__(self, *a):
+        self.shutdown()
 
     def shutdown(self):
         pass
